@@ -128,6 +128,19 @@ def check_case(ctx, case):
             return tuple(e)
 
         def forecast():
+            f = forecast_new()
+            if case.get("empty_obs_first"):
+                # the forecast object first met an EMPTY observation in the spatial, pseudo-likelihood and magnitude tests ('not-valid'
+                # results / None; complete passes; not judged): the judged test that follows is answered as on a new object
+                from csep.core.catalogs import CSEPCatalog
+                for t in (CE.spatial_test, CE.pseudolikelihood_test, CE.magnitude_test):
+                    try:
+                        t(f, CSEPCatalog(data=[], region=f.region, name="empty"), verbose=False)
+                    except Exception:  # noqa: BLE001
+                        pass
+            return f
+
+        def forecast_new():
             region = S.region()
             if case["source"] == "list":
                 from csep.core.catalogs import CSEPCatalog
@@ -518,6 +531,7 @@ def cases(draw):
             **({"np_seed": True} if draw(st.integers(0, 2)) == 0 else {}),
             **({"obs_below_min": True} if draw(st.integers(0, 2)) == 0 else {}),
             **({"obs_rejected_first": True} if draw(st.integers(0, 3)) == 0 else {}),
+            **({"empty_obs_first": True} if draw(st.integers(0, 5)) == 0 else {}),
             **({"synthetic_roundoff": True} if draw(st.integers(0, 2)) == 0 else {}),
             **({"partial_quadtree": True} if draw(st.integers(0, 3)) == 0 else {})}
 
